@@ -1,6 +1,7 @@
 import CarModel.Proofs.IndexSer
 import CarModel.Proofs.IndexLoad
 import CarModel.Proofs.StoreInv
+import CarModel.Proofs.IndexSearch
 /-
 C11 — Index serialization is canonical and lossless.
 -/
@@ -71,5 +72,29 @@ example : (Index.sorted [⟨9, 1, [1, 0, 0, 0, 0, 0, 0, 0, 0]⟩]).wf := by
   simp only [List.mem_singleton] at hs
   subst hs
   exact ⟨by decide, by decide, by decide, by decide⟩
+
+/-- (6) **Lookup after `Load` is exact**, for both codecs: `GetAll` (Go's `sort.Search` as the stdlib
+    runs it, then the forward scan over equal digests) returns an offset for a key iff some loaded
+    record carries that key at that offset — every loaded record is found, nothing else is.
+    Key = digest for `car-index-sorted`, (hash code, digest) for `car-multihash-index-sorted`. -/
+theorem lookup_after_load_exact (codec : Nat) (rs : List Record) (ix : Index) (h : Index.load codec rs = some ix)
+    (hoff : ∀ r ∈ rs, r.offset < 2 ^ 64) (c : Cid) (o : Nat) :
+    o ∈ ix.getAll c ↔
+      ∃ r ∈ rs, (codec = codecMhSorted → r.cid.mhCode = c.mhCode) ∧ r.cid.digest = c.digest ∧ r.offset = o :=
+  index_getAll_load codec rs ix h hoff c o
+
+/-- (6') … and the same after a round trip through `Marshal` / `Unmarshal` (by `unmarshal_marshal`
+    the index read back IS the loaded one). -/
+theorem lookup_after_roundtrip_exact (codec : Nat) (rs : List Record) (ix : Index) (h : Index.load codec rs = some ix)
+    (hwf : ix.wf) (hoff : ∀ r ∈ rs, r.offset < 2 ^ 64) (rest : Bytes) (c : Cid) (o : Nat) :
+    ∃ ix', Index.read (ix.bytes ++ rest) = .ok (ix', rest) ∧
+      (o ∈ ix'.getAll c ↔
+        ∃ r ∈ rs, (codec = codecMhSorted → r.cid.mhCode = c.mhCode) ∧ r.cid.digest = c.digest ∧ r.offset = o) :=
+  ⟨ix, index_roundtrip ix hwf rest, index_getAll_load codec rs ix h hoff c o⟩
+
+/-- Non-vacuity: a two-record load and a lookup that finds the second record. -/
+example : (8 : Nat) ∈ MultiWidth.getAll (MultiWidth.load [⟨⟨1, 0x55, 0x12, [2, 2]⟩, 5⟩, ⟨⟨1, 0x55, 0x12, [1, 9]⟩, 8⟩]) [1, 9] :=
+  (multiWidth_getAll_load _ (by intro r hr; simp at hr; rcases hr with rfl | rfl <;> decide) [1, 9] 8).mpr
+    ⟨⟨⟨1, 0x55, 0x12, [1, 9]⟩, 8⟩, by simp, rfl, rfl⟩
 
 end Car.C11
